@@ -142,3 +142,57 @@ Definition seq_ready (s : rstate) : bool :=
 (* revisions dealt so far, oldest first *)
 Definition dealt_revs (s : rstate) : list N :=
   rev (flat_map (fun e => match e with RvDealt _ r => [r] | _ => [] end) (rlog s)).
+
+(* ---------- the allocator alone, with Commit called by anybody with any revision ----------
+   tso.Commit is also what SetCurrentRevision does on leader hand-over and on follower sync, where
+   the revision may be AHEAD of the allocation counter, concurrently with Deal. Each caller of
+   Commit(rev) performs three atomic actions (tso.go:64-69). *)
+
+Inductive cpc :=
+| CIdle
+| CStored (rev : N)            (* committed := rev done; next: pre := dealt *)
+| CLoaded (rev pre : N).       (* next: if pre < rev then CAS(dealt, pre, rev) *)
+
+Record tstate := {
+  t_dealt : N;
+  t_committed : N;
+  t_pc : tid -> cpc;
+  t_log : list (tid * N)        (* ghost: (thread, revision) of every Deal, newest first *)
+}.
+
+Inductive tlabel :=
+| TDeal (t : tid)
+| TCommit (t : tid) (rev : N)  (* Commit(rev) begins: store committed *)
+| TLoad (t : tid)
+| TCas (t : tid).
+
+Definition tinit (d0 : N) : tstate :=
+  {| t_dealt := d0; t_committed := d0; t_pc := fun _ => CIdle; t_log := [] |}.
+
+(* plain = true replaces the compare-and-swap by a plain store (the mutant the CAS protects against) *)
+Definition tstep (plain : bool) (s : tstate) (l : tlabel) : tstate :=
+  match l with
+  | TDeal t =>
+      {| t_dealt := t_dealt s + 1; t_committed := t_committed s; t_pc := t_pc s;
+         t_log := (t, t_dealt s + 1) :: t_log s |}
+  | TCommit t rev =>
+      match t_pc s t with
+      | CIdle => {| t_dealt := t_dealt s; t_committed := rev; t_pc := upd (t_pc s) t (CStored rev); t_log := t_log s |}
+      | _ => s
+      end
+  | TLoad t =>
+      match t_pc s t with
+      | CStored rev => {| t_dealt := t_dealt s; t_committed := t_committed s;
+                          t_pc := upd (t_pc s) t (CLoaded rev (t_dealt s)); t_log := t_log s |}
+      | _ => s
+      end
+  | TCas t =>
+      match t_pc s t with
+      | CLoaded rev pre =>
+          {| t_dealt := if pre <? rev then (if plain || (t_dealt s =? pre) then rev else t_dealt s) else t_dealt s;
+             t_committed := t_committed s; t_pc := upd (t_pc s) t CIdle; t_log := t_log s |}
+      | _ => s
+      end
+  end.
+
+Definition trun (plain : bool) (ls : list tlabel) (s : tstate) : tstate := fold_left (tstep plain) ls s.
